@@ -6,7 +6,8 @@ namespace Coset.Ties
 /-- items of the inventory that take part in a tie (`str:` / `chr:` items only guide the search). -/
 def tied (item : String) : Bool := !(item.startsWith "str:") && !(item.startsWith "chr:")
 
-/-- comparisons and integer literals: what a special case for one particular input is made of. -/
+/-- comparisons and integer literals of two or more digits (`lit:`; one-digit ones are `sml:` items, part of the full budget only — arities
+    and indices that a rewrite easily adds): what a special case for one particular input is made of. -/
 def comparison (item : String) : Bool := item == "==" || item == "!=" || item == "<=" || item == ">=" || item.startsWith "lit:"
 
 /-- within module `m`, every construct / literal of `g` selected by `sel` occurs in `p` at least as often. -/
